@@ -14,7 +14,7 @@
        resolution (Props/C02.v), control flow and scoping (Props/C08.v), modifiers (Props/C06.v),
        expression values (Props/C07.v) and external gates (Props/C18.v). *)
 From Coq Require Import List Bool String.
-From Verif Require Import Aexp BGate PyVal Ast State GatesGen GateLib Unroll ExternalProofs Process.
+From Verif Require Import Aexp BGate PyVal Ast State GatesGen GateLib Unroll Spec ExternalProofs Process FixProofs SpecFlat.
 Import ListNotations.
 
 Theorem C01_lowering_preserves_process
@@ -89,3 +89,21 @@ Example C01_instance :
         (lower_prog nat nat bool bool lower l) [0]
   = exec nat nat bool bool gsem (fun e s => if e then [s; s + 100] else [s]) (fun c s => Nat.ltb s 50) 5 l [0].
 Proof. vm_compute. reflexivity. Qed.
+
+(* (3), a proved fragment of the refinement "what the visitor emits is the lowering of the trace the reference semantics
+   executes": on EVERY well-formed flat program (Props/C03.v) whose conditionals hold quantum operations only and whose bit
+   registers carry no initial value -- any length -- the reference semantics accepts the program and its trace lowers to the
+   program itself, which is also what the visitor model emits.  Model and reference semantics agree, statement for
+   statement, on all such programs. *)
+Theorem C01_reference_semantics_executes_a_flat_program_to_itself strict p :
+  wf_flat env0 p = true -> forallb quantum_blocks p = true -> forallb no_bit_init p = true ->
+  exists tr, spec_run strict false [] p = Ok tr /\ lower tr = Ok p.
+Proof. exact (reference_semantics_on_flat_programs strict p). Qed.
+Print Assumptions C01_reference_semantics_executes_a_flat_program_to_itself.
+
+Theorem C01_model_and_reference_semantics_agree_on_flat_programs strict p o :
+  wf_flat env0 p = true -> forallb quantum_blocks p = true -> forallb no_bit_init p = true -> (ldepth p < default_fuel)%nat ->
+  unroll_v false [] p = Ok o ->
+  exists tr, spec_run strict false [] p = Ok tr /\ lower tr = Ok (o_stmts o).
+Proof. exact (model_agrees_with_reference_semantics_on_flat_programs strict p o). Qed.
+Print Assumptions C01_model_and_reference_semantics_agree_on_flat_programs.
